@@ -182,3 +182,90 @@ Proof.
     + exists h', e. rewrite E. rewrite <- !app_assoc in *. simpl in *.
       split; [reflexivity|split; [exact A|split; [exact B|exact C]]].
 Qed.
+
+(* ---------- derived views of a collection: items / values / contains / len ---------- *)
+(* a get of a listed key inside a writing session: besides serving the value that was put it keeps the session state
+   valid, moves buffered puts to the file in order at most (stored ++ buffered is unchanged as a list), and leaves
+   the listing alone *)
+Lemma b_get_inv H rs f b k :
+  BInv H rs f b -> In k (bkeys b) ->
+  exists v rs' f' b', b_get f b k = (f', b', BVal v) /\ assoc (rs ++ queue b) k = Some v /\
+                      BInv H rs' f' b' /\ rs' ++ queue b' = rs ++ queue b /\ bkeys b' = bkeys b.
+Proof.
+  intros I Hk. destruct (listed_readable H rs f b k I Hk) as [v [f' [b' [E Hv]]]].
+  exists v. unfold b_get in *. destruct (existsb (fun p => beq k (fst p)) (queue b)) eqn:Eq.
+  - destruct (flush_valid H rs f b I) as [b2 [E2 [Eq2 [Ek2 I2]]]]. rewrite E2 in *.
+    rewrite (bi_has _ _ _ _ I2) in *. simpl in *.
+    exists (rs ++ queue b), (H ++ blocks (rs ++ queue b)), b2.
+    destruct (get (H ++ blocks (rs ++ queue b)) (uk b2) k) as [| v0 | | |]; try discriminate.
+    inversion E; subst. split; [reflexivity|]. split; [exact Hv|]. split; [exact I2|].
+    split; [rewrite Eq2, app_nil_r; reflexivity|exact Ek2].
+  - rewrite (bi_has _ _ _ _ I) in *. simpl in *. exists rs, f, b.
+    destruct (get f (uk b) k) as [| v0 | | |]; try discriminate.
+    inversion E; subst. split; [reflexivity|]. split; [exact Hv|]. split; [exact I|]. split; reflexivity.
+Qed.
+
+Lemma b_items_loop_spec H : forall ks rs f b acc,
+  BInv H rs f b -> (forall k, In k ks -> In k (bkeys b)) ->
+  exists l rs' f' b', b_items_loop ks f b acc = (f', b', BItems (rev acc ++ l)) /\
+                      map fst l = ks /\ (forall k v, In (k, v) l -> assoc (rs ++ queue b) k = Some v) /\
+                      BInv H rs' f' b' /\ rs' ++ queue b' = rs ++ queue b /\ bkeys b' = bkeys b.
+Proof.
+  induction ks as [|k ks IH]; intros rs f b acc I Hin.
+  - exists [], rs, f, b. simpl. rewrite app_nil_r. split; [reflexivity|]. split; [reflexivity|].
+    split; [intros k v []|]. split; [exact I|]. split; reflexivity.
+  - destruct (b_get_inv H rs f b k I (Hin k (or_introl eq_refl))) as [v [rs1 [f1 [b1 [E [Hv [I1 [Eq Ek]]]]]]]].
+    cbn [b_items_loop]. rewrite E.
+    destruct (IH rs1 f1 b1 ((k, v) :: acc) I1) as [l [rs2 [f2 [b2 [E2 [Hl [Hv2 [I2 [Eq2 Ek2]]]]]]]]].
+    { intros k0 Hk0. rewrite Ek. apply Hin. right. exact Hk0. }
+    exists ((k, v) :: l), rs2, f2, b2. rewrite E2. simpl. rewrite <- app_assoc. simpl.
+    split; [reflexivity|]. split; [rewrite Hl; reflexivity|].
+    split; [|split; [exact I2|split; [congruence|congruence]]].
+    intros k0 v0 [Hx|Hx]; [inversion Hx; subst; exact Hv|]. rewrite <- Eq. apply Hv2. exact Hx.
+Qed.
+
+(* items() inside a writing session, for every buffer size: one pair per listed key, each with the bytes that were put
+   (stored or still buffered), no failure, the session state stays valid and the listing is unchanged *)
+Theorem items_exact H rs f b :
+  BInv H rs f b ->
+  exists l rs' f' b', b_items f b = (f', b', BItems l) /\ map fst l = bkeys b /\
+                      (forall k v, In (k, v) l -> assoc (rs ++ queue b) k = Some v) /\
+                      BInv H rs' f' b' /\ rs' ++ queue b' = rs ++ queue b /\ bkeys b' = bkeys b.
+Proof.
+  intros I. unfold b_items.
+  destruct (b_items_loop_spec H (bkeys b) rs f b [] I (fun k Hk => Hk)) as [l [rs' [f' [b' [E R]]]]].
+  exists l, rs', f', b'. split; [exact E|exact R].
+Qed.
+
+Theorem values_exact H rs f b :
+  BInv H rs f b ->
+  exists l f' b', b_items f b = (f', b', BItems l) /\ b_values f b = (f', b', BVals (map snd l)).
+Proof.
+  intros I. destruct (items_exact H rs f b I) as [l [rs' [f' [b' [E _]]]]]. exists l, f', b'.
+  split; [exact E|]. unfold b_values. rewrite E. reflexivity.
+Qed.
+
+(* when the listing is the whole key set (as after update_keys and any number of accepted puts), items() is the whole
+   abstract map: every stored or buffered binding appears *)
+Theorem items_complete H rs f b :
+  BInv H rs f b -> (forall k, In k (map fst (rs ++ queue b)) -> In k (bkeys b)) ->
+  exists l f' b', b_items f b = (f', b', BItems l) /\
+                  forall k v, assoc (rs ++ queue b) k = Some v -> In (k, v) l.
+Proof.
+  intros I Hall. destruct (items_exact H rs f b I) as [l [rs' [f' [b' [E [Hk [Hv _]]]]]]].
+  exists l, f', b'. split; [exact E|]. intros k v Ha.
+  assert (Hin : In k (map fst l)).
+  { rewrite Hk. apply Hall. apply assoc_some_in in Ha. apply (in_map fst) in Ha. exact Ha. }
+  apply in_map_iff in Hin. destruct Hin as [[k0 v0] [Ek Hp]]. simpl in Ek. subst k0.
+  pose proof (Hv k v0 Hp) as Hv0. rewrite Ha in Hv0. inversion Hv0; subst. exact Hp.
+Qed.
+
+(* membership and length answer from the listing *)
+Theorem contains_listed (bs : list backend) f i k :
+  snd (bstep (f, bs) (CContains i k)) = BBool true <-> In k (bkeys (nth i bs b0)).
+Proof.
+  simpl. split.
+  - intros E. inversion E as [E']. apply existsb_exists in E'. destruct E' as [x [Hx Ex]].
+    apply beq_eq in Ex. subst x. exact Hx.
+  - intros Hin. f_equal. apply existsb_exists. exists k. split; [exact Hin|apply beq_refl].
+Qed.
